@@ -26,8 +26,7 @@ Inductive nbehav :=
 | NOk         (* answers: echo of the request plus its own identity *)
 | NFail       (* handler error *)
 | NPanic      (* handler panic *)
-| NBad        (* answers, but the caller's decoder rejects the answer *)
-| NDown.      (* the service is not there (connection closed with 4001) *)
+| NBad.       (* answers, but the caller's decoder rejects the answer *)
 
 Inductive pout := POk (r : msg) | PBadReply (r : msg) | PErr (c : errc) (tok : string).
 
@@ -41,7 +40,6 @@ Definition node_out (bs : list nbehav) (use_decoder : bool) (q : msg) (i : nat) 
   | Some NBad => if use_decoder then PBadReply (node_reply q i) else POk (node_reply q i)
   | Some NFail => PErr EHandler "node-fails"
   | Some NPanic => PErr EPanic "node-panics"
-  | Some NDown => PErr ENoService ""
   end.
 
 (* ---------- ParallelOptions.GetList ------------------------------------------------- *)
